@@ -104,6 +104,13 @@ pub fn run(tier: &str, seed: u64) -> Report {
       if rng.chance(1, 4) && is_js_like_ext(&ext_of(&w.specs[i])) && matches!(w.resp[i], Resp::Module { raw: None, .. }) {
         w.tampered.push(i);
       }
+      // the server moved the resource since the cached copy was made: a cache-bypassing retry is redirected
+      if matches!(w.resp[i], Resp::Module { .. }) && w.lock.iter().any(|(j, _)| *j == i) && rng.chance(1, 5) {
+        let t = rng.below(w.specs.len());
+        if t != i {
+          w.reload_redirect.push((i, t));
+        }
+      }
     }
     let desc = json!({"world": w.describe(), "world_index": wi});
     batch.descs.push(desc.clone());
@@ -168,7 +175,8 @@ pub fn run(tier: &str, seed: u64) -> Report {
       }
       match &w.resp[*i] {
         Resp::Module { .. } => {
-          let fresh_ok = sha256_hex(&w.served(*i, true).unwrap()) == locked;
+          let retry_redirected = w.reload_redirect.iter().any(|(e, _)| e == i);
+          let fresh_ok = !retry_redirected && sha256_hex(&w.served(*i, true).unwrap()) == locked;
           let cached_ok = sha256_hex(&w.served(*i, false).unwrap()) == locked;
           // non-asset loads only: an asset load keeps no content in the graph
           let asset_only = log.iter().filter(|c| c.specifier == s.as_str()).all(|c| c.ensure_cached);
@@ -188,6 +196,18 @@ pub fn run(tier: &str, seed: u64) -> Report {
           }
           if fresh_ok && !cached_ok {
             report.count("tampered-cache-recovered-by-reload");
+          }
+          if retry_redirected && !cached_ok && !delivered_under_other_request {
+            // a checksummed URL that redirects is rejected, for module and asset loads alike
+            match g.try_get(s) {
+              Err(_) => report.count("checksummed-retry-redirect-rejected"),
+              Ok(m) => report.fail(
+                "oracle",
+                "checksummed-url-admitted-although-its-retry-was-redirected",
+                format!("{}: the cached bytes do not match the lockfile and the cache-bypassing retry was redirected, but the entry is {:?}", s, m.map(|m| m.specifier().to_string())),
+                desc.clone(),
+              ),
+            }
           }
         }
         Resp::Redirect(_) => match g.try_get(s) {
@@ -269,6 +289,35 @@ pub fn registry_part(report: &mut Report, tier: &str, rng: &mut Rng) {
       if w.lock_manifests.is_empty() {
         if let Some(p) = w.pkgs.first() {
           w.lock_manifests.push((format!("{}@{}", p.name, p.versions[0].version), i % 6 != 3));
+        }
+      }
+    }
+    if w.has_locker {
+      // remote lockfile entries for package files that are imported by their https URL
+      let mut urls: Vec<String> = vec![];
+      for u in &w.user {
+        for it in &u.items {
+          if it.text.starts_with(REG) {
+            urls.push(it.text.clone());
+          }
+        }
+      }
+      for p in &w.pkgs {
+        for v in &p.versions {
+          for f in &v.files {
+            for it in &f.items {
+              if it.text.starts_with(REG) {
+                urls.push(it.text.clone());
+              }
+            }
+          }
+        }
+      }
+      urls.sort();
+      urls.dedup();
+      for u in urls {
+        if i % 2 == 0 || rng.chance(1, 2) {
+          w.lock_remote.push((u, rng.chance(1, 2)));
         }
       }
     }
